@@ -13,7 +13,9 @@ fn epoch_to_timestamp<V: ValT>(v: &V) -> Result<Timestamp, Error<V>> {
             if !micros.is_finite() {
                 return Err(fail());
             }
-            micros as i64
+            // round to the nearest microsecond instead of truncating towards zero,
+            // because e.g. 1.000001 * 1e6 is slightly smaller than 1000001
+            micros.round() as i64
         }
     };
     Timestamp::from_microsecond(val).map_err(Error::str)
@@ -43,7 +45,8 @@ fn array_to_datetime<V: ValT>(v: &[V]) -> Option<Result<DateTime, jiff::Error>> 
         i8(min)?,
         // the `as i8` cast saturates, returning a number in the range [-128, 128]
         sec.floor() as i8,
-        (sec.fract() * 1e9) as i32,
+        // round to the nearest microsecond
+        ((sec - sec.floor()) * 1e6).round().min(999999.0) as i32 * 1000,
     ))
 }
 
@@ -124,5 +127,6 @@ pub fn mktime<V: ValT>(v: &V) -> ValR<V> {
         .and_then(|dt| dt.to_zoned(tz::TimeZone::UTC))
         .map_err(Error::str)?
         .timestamp();
-    timestamp_to_epoch(ts, ts.subsec_nanosecond() > 0)
+    // the sub-second part of timestamps before 1970 is negative
+    timestamp_to_epoch(ts, ts.subsec_nanosecond() != 0)
 }
